@@ -301,11 +301,23 @@ def eval_yaml(case):
                     for site in c.sites:
                         s2 = rt(site); n += 1
                         if not (s2 == site and hash(s2) == hash(site) and np.array_equal(site.R, s2.R) and tuple(site.ci) == tuple(s2.ci)): V('clustersite', 'site'); break
+            def same(c2, c):
+                # equal, same hash, same kind flags, same site list (a dropped flag changes what the object is)
+                return (c2 == c and hash(c2) == hash(c) and c2.Norder == c.Norder and str(c2) == str(c)
+                        and bool(getattr(c2, '__transition__', None)) == bool(getattr(c, '__transition__', None))
+                        and bool(getattr(c2, '__vacancy__', None)) == bool(getattr(c, '__vacancy__', None)))
+            vclexp = cluster.makeVacancyClusters(crys, chem, clexp)
+            pools = [('vacancy-cluster', vclexp)]
             if len(jn) > 0:
-                for ts in cluster.makeTSclusters(crys, chem, jn, clexp):
-                    for c in ts:
+                pools += [('ts-cluster', cluster.makeTSclusters(crys, chem, jn, clexp)),
+                          ('vacancy-ts-cluster', cluster.makeTSclusters(crys, chem, jn, vclexp))]
+            for pname, pool in pools:
+                for cset in pool:
+                    cl = sorted(cset, key=str)
+                    for c in cl:
                         c2 = rt(c); n += 1
-                        if not (c2 == c and hash(c2) == hash(c)): V('ts-cluster', 'order{}'.format(c.Norder)); break
+                        if not same(c2, c): V(pname, 'order{}'.format(c.Norder)); break
+                        if c2 not in cset: V(pname + '-membership', 'order{}'.format(c.Norder)); break
         except Exception as e:
             V('exception', 'cluster', repr(e))
     k = OnsagerCalc.vacancyThermoKinetics(pre=np.ones(2), betaene=np.array([0., 0.3]), preT=np.ones(3), betaeneT=np.array([1., 1.2, 0.7]))
